@@ -626,6 +626,10 @@ impl<'a, T: Read + Write + Seek> PointCloudWriter<'a, T> {
 }
 
 fn update_min<T: PartialOrd>(value: T, min: &mut Option<T>) {
+    // A value that cannot be compared with itself (NaN) is not a bound of anything
+    if value.partial_cmp(&value).is_none() {
+        return;
+    }
     if let Some(current) = min {
         if *current > value {
             *min = Some(value)
@@ -636,6 +640,10 @@ fn update_min<T: PartialOrd>(value: T, min: &mut Option<T>) {
 }
 
 fn update_max<T: PartialOrd>(value: T, min: &mut Option<T>) {
+    // A value that cannot be compared with itself (NaN) is not a bound of anything
+    if value.partial_cmp(&value).is_none() {
+        return;
+    }
     if let Some(current) = min {
         if *current < value {
             *min = Some(value)
